@@ -174,6 +174,8 @@ def judgeSG : P (String × Verdict) := do
       s!"simplify(gens) {input} lib={showDK dk'} {showG rows'} model={showDK m.2} {showG m.1}")
   if !upperTriangular n rows' dk' then
     return (id, .bad "tri" s!"simplify(gens) output not upper triangular: {input} out={showDK dk'} {showG rows'}")
+  if norm = 1 && !gnormB n rows' then
+    return (id, .bad "tri" s!"simplify(gens): the divisors of the output are not those of its point (gnormB): {input} out={showG rows'}")
   if norm = 1 then
     match gensOf n rows, gensOf n rows' with
     | some a, some b =>
@@ -236,6 +238,8 @@ def judgeCG : P (String × Verdict) := do
     return (id, .bad (if semOk then "rows" else "rows+sem") s!"conversion(cgs->gens) {input} lib={showDK dk'} {showG rows} model={showG m}")
   if !upperTriangular n rows dk' then
     return (id, .bad "tri" s!"conversion(cgs->gens) output not upper triangular: {input} out={showG rows}")
+  if !gnormB n rows then
+    return (id, .bad "tri" s!"conversion(cgs->gens): the divisors of the output are not those of its point (gnormB): {input} out={showG rows}")
   if !cgCertB n crows rows then
     return (id, .bad "cert" s!"conversion(cgs->gens): a produced generator violates a congruence of the source (cgCertB): {input} out={showG rows}")
   if !semOk then
